@@ -63,7 +63,9 @@ def compute_signature(
             # Hash on UFL signature and points
             signature = ufl.algorithms.signature.compute_expression_signature(expr, rn)
             object_signature += signature
-            object_signature += repr(points)
+            # repr() of a numpy array prints 8 significant digits (and elides the
+            # middle of large arrays); hash the exact coordinates instead
+            object_signature += repr(np.asarray(points).tolist())
 
             kind = "expression"
         else:
